@@ -81,7 +81,9 @@ Names == DOMAIN EP
 (* argument class -> the requirement it violates ("" for in-domain classes)   *)
 Violates == [
   ok_generic |-> "", ok_square_hermitian |-> "", ok_1x1 |-> "", ok_1xn |-> "", ok_nx1 |-> "", ok_rank_deficient |-> "",
-  nonsquare |-> "square", nonsquare_wide |-> "square", nonhermitian |-> "hermitian", nonhermitian_diagonal |-> "hermitian", too_small |-> "min2",
+  nonsquare |-> "square", nonsquare_wide |-> "square", nonhermitian |-> "hermitian", nonhermitian_diagonal |-> "hermitian",
+  nonhermitian_w |-> "hermitian", nonhermitian_x |-> "hermitian", nonhermitian_y |-> "hermitian", nonhermitian_z |-> "hermitian",
+  nonhermitian_diagonal_x |-> "hermitian", nonhermitian_diagonal_y |-> "hermitian", nonhermitian_diagonal_z |-> "hermitian", too_small |-> "min2",
   wide_for_tall |-> "tall", tall_for_wide |-> "wide", real_dtype |-> "quat", complex_dtype |-> "quat",
   sparse_storage |-> "dense", unknown_option |-> "option", mismatched_pair |-> "coupled",
   unknown_option_fragment |-> "option", unknown_option_empty |-> "option", unknown_option_case |-> "option", unknown_option_type |-> "option",
